@@ -567,7 +567,8 @@ func (f *FaceModule) query(interest *spec.Interest, pitToken []byte, _ uint64) {
 		return
 	}
 	filterV, err := mgmt.ParseFaceQueryFilter(enc.NewBufferReader(interest.NameV[f.manager.prefixLength()+2].Val), true)
-	if err != nil {
+	if err != nil || filterV.Val == nil {
+		// Not a FaceQueryFilter (e.g. some other TLV in its place): nothing to answer
 		return
 	}
 	filter := filterV.Val
